@@ -17,7 +17,8 @@ PASS_THROUGH = {
     "core::ops::Deref::deref", "core::borrow::Borrow::borrow", "core::convert::AsRef::as_ref",
     "<std::sync::Arc<T, A> as core::ops::Deref>::deref",
 }
-PASS_SUFFIX = ("as core::clone::Clone>::clone", "as core::ops::Deref>::deref")
+PASS_SUFFIX = ("as core::clone::Clone>::clone", "as core::ops::Deref>::deref", "as error::ErrorContext>::with_context",
+               "as error::ErrorContext>::context", "core::result::Result::<T, E>::map_err")
 
 
 class Terms:
